@@ -185,7 +185,7 @@ def shards(tier):
     for fam in ("mixed", "cond-a-not-b", "cond-cds-a-and-b", "extenders"):
         for chunk in range(8):
             out.append(["rotation-intron", 24, fam, chunk, 8, tier])
-    for fam in ("extenders", "mixed"):
+    for fam in ("extenders", "mixed", "cutoff0"):
         for chunk in range(8):
             out.append(["rotation-nested", 36, fam, chunk, 8, tier])
     for L in lengths[:1]:
@@ -196,6 +196,8 @@ def shards(tier):
     return out
 
 
+# a rule with CUTOFF 0 (the shipped NRPS-like rule has one): only genes that overlap each other form one core
+CUTOFF0 = ("cutoff0", [("r1", 0, 1, c03.ID_A, [], None)], "all-a")
 MIXED4 = ("mixed4", [("r1", 5, 1, c03.ID_A, [], None), ("r2", 2, 0, c03.ID_B, [], None),
                      ("r3", 5, 0, ["and", [c03.ID_A, c03.ID_B]], ["r1"], None), ("r4", 3, 2, ["or", False, [c03.ID_A, c03.ID_B]], [], None)], "ab")
 
@@ -260,7 +262,7 @@ def run_shard(shard):
     res = Result()
     if shard[0] in ("rotation", "rotation-intron", "rotation-nested"):
         _, L, famname, chunk, nchunks, tier = shard
-        fam = [f for f in c03.families("thorough") if f[0] == famname][0] if shard[0] != "rotation" else \
+        fam = CUTOFF0 if famname == "cutoff0" else [f for f in c03.families("thorough") if f[0] == famname][0] if shard[0] != "rotation" else \
             [f for f in families(tier) if f[0] == famname][0]
         index = 0
         for starts in (gap_layouts(L, 3) if shard[0] == "rotation" else intron_layouts(L) if shard[0] == "rotation-intron" else nested_layouts(L)):
@@ -325,7 +327,8 @@ def run_shard(shard):
 
 def replay(case):
     if case["kind"] == "rotation":
-        fam = ([f for f in families("thorough") if f[0] == case["family"]] or [f for f in c03.families("thorough") if f[0] == case["family"]])[0]
+        fam = ([CUTOFF0] if case["family"] == "cutoff0" else [])
+        fam = (fam or [f for f in families("thorough") if f[0] == case["family"]] or [f for f in c03.families("thorough") if f[0] == case["family"]])[0]
         return check_rotation(case["starts"], case["L"], case["hits"], fam[1], case["k"])
     fam = MIXED4 if case["family"] == "mixed4" else [f for f in c03.families("thorough") if f[0] == case["family"]][0]
     return check_order(case["world"], case["hits"], fam[1], tuple(case["order"]))
